@@ -3,4 +3,4 @@ From OV Require Import Common.Base C20.Model.
 Extraction Language OCaml.
 Extraction "C20_model.ml" hash_tuple hash_input tuple_eqb seq_op seq_run snapshot sys0 sys_step run_sched
   quiescent finished tstep orphan in_map sub_new sub_publish sub_publish_n sub_drain sub_unsub thread0 shared0
-  sum_measure prog_weight eff_cap eff_cap_with default_cap xsys0 xsys_step xrun xstep_aux xstep_client xclients_done afinished auxthread0 sshared0 seq_thread rsys0 rsys_step rrun_sched rdone_all rstep.
+  sum_measure prog_weight eff_cap eff_cap_with default_cap bulk_ok xsys0 xsys_step xrun xstep_aux xstep_client xclients_done afinished auxthread0 sshared0 seq_thread rsys0 rsys_step rrun_sched rdone_all rstep.
